@@ -45,7 +45,7 @@ SCHED_RULE = (" A third generator runs small concurrent programs under a coopera
               "the schedule vector shrinks and replays.")
 
 
-def _pool(test, rule, nontriv, quick=12000, thorough=400000, extra_assume=None, conc=None):
+def _pool(test, rule, nontriv, quick=12000, thorough=400000, extra_assume=None, conc=None, sched=None):
     d = dict(kind="harness", pkg="./poolsim", test=test,
                 quick=dict(checks=quick, shards=4, timeout=600),
                 thorough=dict(checks=thorough, shards=16, timeout=10800),
@@ -55,6 +55,14 @@ def _pool(test, rule, nontriv, quick=12000, thorough=400000, extra_assume=None, 
                      "compared step by step with the Appendix A reference model. " + rule + " Non-trivial = " + nontriv +
                      "; distinct = FNV-1a of the canonical JSON of the case." + (CONC_RULE + " " + conc[1] if conc else ""),
                 assume=POOL_ASSUME + (extra_assume or []) + (["concurrent part: schedules are perturbed, not owned - preemption happens only at the injected yield points and wherever the Go scheduler decides; a time budget that runs out is not a failure"] if conc else []))
+    if sched and not conc:
+        # scheduled programs only (no perturbed workload of its own)
+        d["instr"] = True
+        d["parts"] = [dict(pkg="./poolsim", test=test, replay_key="ops"), dict(pkg="./poolsim", test=test, replay_key="ops"), dict(pkg="./poolsim", test=test, replay_key="ops"),
+                      dict(pkg="./conc", test=sched, replay_key="schedule", quick_checks=250, thorough_checks=15000)]
+        d["quick"]["shards"] = 4
+        d["thorough"]["shards"] = 16
+        d["rule"] += SCHED_RULE
     if conc:
         d["instr"] = True
         d["parts"] = [dict(pkg="./poolsim", test=test, replay_key="ops"), dict(pkg="./poolsim", test=test, replay_key="ops"),
@@ -162,7 +170,7 @@ PROPS.update({
                                         "exact agreement is demanded only on the proto-like domain (structs, single pointers, slices, scalars)"]),
     "C01": _pool("TestC01", "Profile 'affinity'. Oracle: a BOUND/UNBIND pick for a bound key whose home channel is READY is placed on the home channel's current connection (any picker) and the most recent picker does place it; home not READY and fallback off => ErrNoSubConnAvailable; bindings change only on successful BIND (unbound keys only) and successful UNBIND.",
                  "the history has a keyed pick for a bound key with READY home and at least one of {home channel swapped by a refresh, stale picker, saturated home, BIND of an already bound key, UNBIND, home not READY}",
-                 extra_assume=["keys whose home channel was dead (Shutdown) while bound are don't-care until unbound; the empty key is no key"]),
+                 extra_assume=["keys whose home channel was dead (Shutdown) while bound are don't-care until unbound; the empty key is no key"], sched="TestSchedC01"),
     "C02": _pool("TestC02", "Profile 'load'. Oracle: every unkeyed/unknown-key placement is on a channel of the picker's READY snapshot whose model in-flight count (placements minus completions, never read from the library) is minimal; end-of-case drain: after completing every call, n picks land on n distinct READY channels.",
                  "a least-loaded choice among >=2 snapshot channels plus a completion with a non-ok outcome, after a swap, or on a channel that left READY",
                  conc=("TestConcC02", "Invariant: after the workload is quiescent (every completion ran) n picks land on n distinct channels - every count returned to zero.", 300, 12000)),
